@@ -269,6 +269,19 @@ theorem rotate_matrix_body_doc (L : Nat) (cmin : Int) (zI aI gI DI A : Nat) (a b
       = ∑ n ∈ Finset.Icc (-(ell : ℤ)) ell, toC (flm ((ell : Int) * ((ell : Int) + 1) + n)) * DDef.docD ell (DDef.Ra (R 0) (R 3)) (DDef.Rb (R 1) (R 2)) n m :=
   rotate_matrix_route_doc L cmin zI aI gI DI A a b d g h ht imsqrt hsq R hR F h0 hz ha hg hza hzg hag flm eM sw ell m hm hl hL hs h1
 
+/-- the premises of `rotate_matrix_body_doc` are satisfiable: the rotor (1/2, 1/2, 1/2, 1/2), a calculator with `ell_max = 3` and the tables listed in
+    the documented orderings, the real `imsqrt`, arrays 6 (z), 4, 5 (powers), 3 (𝔇), 8 (output), modes up to ℓ = 2 of spin weight 1, entry (2, −1) -/
+example (flm : Int → Cx ℝ) (F : φ) :
+    toC (frdC (α := ℝ) (Gen.Wigner_rotate_matrix_body (α := ℝ) (fun _ => (1 / 2 : ℝ)) 6
+        (GenH.tabOfRange Scalar.half (Spec.nmRange 4) Gen.tab_g) (GenH.tabOfRange Scalar.half (Spec.nmRange 4) Gen.tab_h) ((3 : Nat) : Int) ((3 : Nat) : Int)
+        (GenH.tabOfRange Scalar.half (Spec.nabsmRange 4) Gen.tab_a) (GenH.tabOfRange Scalar.half (Spec.nmRange 4) Gen.tab_b)
+        (GenH.tabOfRange Scalar.half (Spec.nmRange 4) Gen.tab_d) GenH.idW GenH.idV GenH.idX 3 4 DDef.imsqrtR 5 0 flm 8 0 ((2 : Nat) : Int) 1 1 0 0 F) 8
+        (((2 : Nat) : Int) * (((2 : Nat) : Int) + 1) + (-1)))
+      = ∑ n ∈ Finset.Icc (-((2 : Nat) : ℤ)) (2 : Nat), toC (flm (((2 : Nat) : Int) * (((2 : Nat) : Int) + 1) + n))
+          * DDef.docD 2 (DDef.Ra (1 / 2) (1 / 2)) (DDef.Rb (1 / 2) (1 / 2)) n (-1) :=
+  rotate_matrix_body_doc 3 0 6 4 5 3 8 _ _ _ _ _ (GenH.tabOK_ranges 3) DDef.imsqrtR DDef.imsqrtR_spec (fun _ => (1 / 2 : ℝ)) (by norm_num) F (by decide)
+    (by decide) (by decide) (by decide) (by decide) (by decide) (by decide) flm 2 1 2 (-1) (by decide) (by decide) (by decide) (by decide) (by decide)
+
 /-- … and for the GENERATED loop body of the matrix branch of `Wigner.evaluate` (`Gen.Wigner_evaluate_matrix_rotor`: `self.sYlm(…, out=Y)` then `np.matmul`) -/
 theorem evaluate_matrix_rotor_doc (Lc P : Nat) (c : Nat) (sw : Int) (zI aI YI fv : Nat) (a b d g h : Int → ℝ) (ht : GenH.TabOK Lc a b d g h) (imsqrt : Cx ℝ → ℝ)
     (hsq : ∀ w : Cx ℝ, w.re ^ 2 + w.im ^ 2 = 1 → 2 * (imsqrt w) ^ 2 = 1 - w.re) (cpowi : Cx ℝ → Int → Cx ℝ)
